@@ -56,9 +56,10 @@ def main():
             print(name, "silent (no new failing obligation in", len(props), "checks)")
         dst = os.path.join(VERIF, "refactors", name)
         os.makedirs(dst, exist_ok=True)
-        shutil.copy(patch, dst)
-        if os.path.exists(os.path.join(src, "NOTES.md")):
-            shutil.copy(os.path.join(src, "NOTES.md"), dst)
+        if os.path.abspath(src) != os.path.abspath(dst):
+            shutil.copy(patch, dst)
+            if os.path.exists(os.path.join(src, "NOTES.md")):
+                shutil.copy(os.path.join(src, "NOTES.md"), dst)
         json.dump(res, open(os.path.join(dst, "result.json"), "w"), indent=1)
     finally:
         run(f"git -C /repo worktree remove --force {wt}", "/")
